@@ -18,3 +18,5 @@ import seg_common as _sc
 PAIRS += [_sc.pairs()['segment_os_free']]      # a segment goes back to the arena layer exactly once with exactly its (base, size, memid)
 import heap_collect_common as _hc
 PAIRS += [_hc.page_collect_pair()]      # per-page step of a collection: empty => freed, live blocks => kept (abandoned on thread exit), never freed
+import seg_common as _sc2
+PAIRS += [_sc2.pairs()[k] for k in ('segment_page_free',)]      # last page freed => segment freed; only abandoned pages left => segment abandoned
